@@ -31,3 +31,11 @@ Theorem c05_accept_position_eo : forall st st', ostep st st' -> o_acc2 st' <> o_
     holds (o_store st') (key2 (o_acc2 st)) (pub2_packet retain topic msg (o_acc2 st)) (o_rseq st + 1).
 Proof. exact accept_id2. Qed.
 Print Assumptions c05_accept_position_eo.
+
+(* Concurrent publishers: per level, submitPersisted and connect/resend exclude each other (the
+   sequence semaphore has at most one holder), so wire order = semaphore order = identifier order. *)
+From MQ Require Import Sync SyncProofs.
+Theorem c05_seq_exclusive : ltac:(let t := type of seq_exclusive in exact t).
+Proof. exact seq_exclusive. Qed.
+Check c05_seq_exclusive.
+Print Assumptions c05_seq_exclusive.
